@@ -1075,11 +1075,19 @@ func (v *Verifier) step(st *State, instr ssa.Instruction) bool {
 		v.safety(st, in, "panic", TFalse)
 		return false
 	case *ssa.RunDefers:
-		if fr.deferd {
+		if fr.deferd && !fr.defersExternalOnly {
 			unsup("defer in %s", fr.fn)
 		}
 		return true
 	case *ssa.Defer:
+		// a deferred call to a dependency's function without results and without arguments that reach the
+		// repository's heap runs at return like any other external call: nothing of the model changes
+		if callee := in.Call.StaticCallee(); callee != nil && !in.Call.IsInvoke() && !inRepoFn(callee) && len(in.Call.Args) == 0 {
+			v.assumeNote("external " + callee.String() + " (deferred): heap assumed unchanged; a panic is not caught by it")
+			fr.defersExternalOnly = true
+			fr.deferd = true
+			return true
+		}
 		unsup("defer in %s", fr.fn)
 	case *ssa.Go:
 		unsup("go statement in %s", fr.fn)
